@@ -127,13 +127,16 @@ func (c *Decoder) decodeErrorStatement() (*ast.ErrorStatement, error) {
 	var err error
 	stmt := &ast.ErrorStatement{}
 
-	if stmt.Code, err = c.decodeExpression(c.nextFrame()); err != nil {
-		return nil, errors.WithStack(err)
-	}
-
+	// Both of status code and response are optional, e.g. "error;"
 	if isExpressionFrame(c.peekFrame()) {
-		if stmt.Argument, err = c.decodeExpression(c.nextFrame()); err != nil {
+		if stmt.Code, err = c.decodeExpression(c.nextFrame()); err != nil {
 			return nil, errors.WithStack(err)
+		}
+
+		if isExpressionFrame(c.peekFrame()) {
+			if stmt.Argument, err = c.decodeExpression(c.nextFrame()); err != nil {
+				return nil, errors.WithStack(err)
+			}
 		}
 	}
 
@@ -238,6 +241,8 @@ func (c *Decoder) decodeIfStatement() (*ast.IfStatement, error) {
 				return nil, errors.WithStack(err)
 			}
 			stmt.Another = append(stmt.Another, another)
+		default:
+			return nil, typeMismatch(IF_STATEMENT, frame.Type())
 		}
 	}
 ANOTHER_END:
